@@ -435,6 +435,9 @@ func (e *Env) stmt(s ast.Stmt) {
 		} else {
 			r = Sub(v.T, IntLit(1))
 		}
+		if v.K == VInt && v.Typ != nil {
+			e.overflowCheck(r, v.Typ, s.Pos())
+		}
 		e.storeTo(s.X, Value{K: VInt, T: r, Typ: v.Typ})
 	case *ast.DeclStmt:
 		gd, ok := s.Decl.(*ast.GenDecl)
